@@ -777,7 +777,7 @@ class SynchronizationNext:
         return next_shape_kept(self, old.self)
 
 
-@contract('statemachine:ElectionState.next', props=['C02', 'C08'])
+@contract('statemachine:ElectionState.next', props=['C02', 'C08', 'C01'])
 class ElectionNext:
     raises = ()
     inline = ['statemachine:_SupvisorsBaseState.next']
@@ -811,6 +811,16 @@ class ElectionNext:
 
     def post_shape(self, old):
         return next_shape_kept(self, old.self)
+
+    def post_effect_election_rule_runs_whenever_stable(self, result):
+        """C01 'A running Master that is the only one recognised is kept when instances join or leave; otherwise the
+        documented rule ... picks among the Masters still recognised, or among all running instances when there is none'
+        (mechanisms 'stability gate before election', 'priority to already declared Master'): as long as the instance
+        stays in ELECTION, select_master runs on EVERY evaluation in which the context is stable - not only when no
+        Master is known locally: after a healed split-brain several Masters are recognised and the rule must pick one -
+        and never while the context is unstable, nor in the evaluation that leaves ELECTION (the shared Master is kept)"""
+        stable = len(self.supvisors.state_modes.stable_identifiers) > 0
+        return count_effects('select_master') == (1 if stable and result == SupvisorsStates.ELECTION else 0)
 
 
 @contract('statemachine:_MasterSlaveState.next', props=['C02', 'C08', 'C09', 'C10'])
@@ -1166,10 +1176,11 @@ class FsmNext:
 
 @contract('statemachine:FiniteStateMachine.on_restart', props=['C02', 'C09'])
 class OnRestart:
-    """C09 clause 2: 'On supvisors.restart ..., issued on any instance, the order reaches the Master': the Master enters
+    """(ghost effect 'fsm_on_restart' for the callers inside the FSM)  C09 clause 2: 'On supvisors.restart ..., issued on any instance, the order reaches the Master': the Master enters
     RESTARTING through set_state (C02 clause 3 is the call-pre of set_state); a slave re-routes exactly one request to its
     Master; without Master nothing happens (RuntimeError, see C17)"""
     raises = ('RuntimeError',)
+    effect = 'fsm_on_restart'
 
     def pre_inv(self):
         return fsm_pre(self)
@@ -1195,6 +1206,7 @@ class OnRestart:
 @contract('statemachine:FiniteStateMachine.on_shutdown', props=['C02', 'C09'])
 class OnShutdown:
     raises = ('ValueError',)
+    effect = 'fsm_on_shutdown'
 
     def pre_inv(self):
         return fsm_pre(self)
@@ -1215,3 +1227,90 @@ class OnShutdown:
 
     def exc_ValueError_no_master(self, old):
         return not is_master(old.self) and master(old.self) == '' and no_effect()
+
+
+# ------------------------------------------------------------------------------------------ process events (C06 / C01)
+def crashed(p):
+    """ProcessStatus.crashed() without identifier: 'has crashed or has exited unexpectedly'"""
+    return p._state == ProcessStates.FATAL or (p._state == ProcessStates.EXITED and not p.expected_exit)
+
+
+AUTOMATIC = ('add_default_job', 'trigger_jobs', 'fsm_on_restart', 'fsm_on_shutdown', 'set_state', 'send_restart_all',
+             'send_shutdown_all', 'start_applications', 'stop_applications', 'conciliate_conflicts')
+
+
+@contract('statemachine:FiniteStateMachine.on_process_state_event', props=['C06', 'C01'])
+class OnProcessStateEvent:
+    """C06 'the Master - and only the Master - applies ... its running_failure_strategy ...; on a process crash the
+    application-level strategies and SHUTDOWN / RESTART are applied the same way'; C01 'No instance starts, stops or
+    conciliates anything automatically unless it is that Master'; comment of the code (anchor 'Master-only repair'): 'to
+    avoid infinite application restart, exclude the case where process state is forced'.
+    The event's process is the one handed to the Starter and the Stopper (argument of the 'commander_on_event'
+    effects); its attributes are read where the code read them: just before the first automatic action
+    (effect_pre), or in the final state when no action was taken (nothing ran after the reads)."""
+    raises = ()
+
+    def pre_inv(self, status):
+        return fsm_pre(self)
+
+    def pre_master_seen_running(self):
+        return master_seen_running(self)
+
+    def modifies(self, status, event):
+        return [everything_but(*WIRING)]
+
+    def post_effect_jobs_see_the_event(self, status):
+        """the Starter, then the Stopper, are given the event of a known process (C10: acknowledgements end the jobs)"""
+        sv = self.supvisors
+        a = effect_at('commander_on_event', 0)
+        b = effect_at('commander_on_event', 1)
+        return (count_effects('commander_on_event') == 0 and no_effect(*AUTOMATIC)) or (
+            (a[0] is sv.starter and b[0] is sv.stopper and a[1] is b[1]) if count_effects('commander_on_event') == 2 else False)
+
+    def post_effect_only_the_master_acts(self, old):
+        return implies(not is_master(old.self), no_effect(*AUTOMATIC))
+
+    def post_effect_at_most_one_action(self):
+        return (count_effects('fsm_on_restart') + count_effects('fsm_on_shutdown') + count_effects('add_default_job') <= 1
+                and count_effects('trigger_jobs') == count_effects('add_default_job')
+                and no_effect('start_applications', 'stop_applications', 'conciliate_conflicts'))
+
+    def post_effect_restart_only_on_crash_with_restart_strategy(self):
+        """'on a process crash ... SHUTDOWN / RESTART are applied the same way' - and only then"""
+        e = effect_at('commander_on_event', 0)[1] if count_effects('commander_on_event') == 2 else None
+        p = at(effect_pre('fsm_on_restart', 0), e) if count_effects('fsm_on_restart') == 1 else None
+        return ((crashed(p) and p.rules.running_failure_strategy == RunningFailureStrategies.RESTART)
+                if count_effects('fsm_on_restart') == 1 else True)
+
+    def post_effect_shutdown_only_on_crash_with_shutdown_strategy(self):
+        e = effect_at('commander_on_event', 0)[1] if count_effects('commander_on_event') == 2 else None
+        p = at(effect_pre('fsm_on_shutdown', 0), e) if count_effects('fsm_on_shutdown') == 1 else None
+        return ((crashed(p) and p.rules.running_failure_strategy == RunningFailureStrategies.SHUTDOWN)
+                if count_effects('fsm_on_shutdown') == 1 else True)
+
+    def post_effect_failure_job_only_for_unforced_crash(self):
+        """'... STOP_APPLICATION stops the whole application, RESTART_APPLICATION stops then restarts it' on a crash - and
+        a forced state is not retried: a failure job is registered only for the event's process, crashed, with an
+        application-level strategy and no forced state (read just before the registration)"""
+        e = effect_at('commander_on_event', 0)[1] if count_effects('commander_on_event') == 2 else None
+        j = effect_at('add_default_job', 0)[0] if count_effects('add_default_job') == 1 else None
+        p = at(effect_pre('add_default_job', 0), e) if count_effects('add_default_job') == 1 else None
+        strategy = p.rules.running_failure_strategy if count_effects('add_default_job') == 1 else None
+        return ((j is e and crashed(p) and p.forced_state is None
+                 and (strategy == RunningFailureStrategies.STOP_APPLICATION
+                      or strategy == RunningFailureStrategies.RESTART_APPLICATION))
+                if count_effects('add_default_job') == 1 else True)
+
+    def post_effect_master_applies_the_strategy_of_a_crash(self, old):
+        """the converse: when the Master took NO action, the event's process (final state = state at the decision: nothing
+        ran after it) had not crashed, or its strategy is CONTINUE / RESTART_PROCESS (left to Supervisor's autorestart),
+        or it is an application-level strategy on a forced state"""
+        p = effect_at('commander_on_event', 0)[1] if count_effects('commander_on_event') == 2 else None
+        strategy = p.rules.running_failure_strategy if count_effects('commander_on_event') == 2 else None
+        idle = count_effects('fsm_on_restart') + count_effects('fsm_on_shutdown') + count_effects('add_default_job') == 0
+        return (implies(is_master(old.self) and crashed(p),
+                        strategy != RunningFailureStrategies.RESTART and strategy != RunningFailureStrategies.SHUTDOWN
+                        and implies(strategy == RunningFailureStrategies.STOP_APPLICATION
+                                    or strategy == RunningFailureStrategies.RESTART_APPLICATION,
+                                    p.forced_state is not None))
+                if idle and count_effects('commander_on_event') == 2 else True)
